@@ -5,7 +5,8 @@ patch=$1; shift
 cd /repo || exit 2
 if ! git diff --quiet; then echo "/repo has uncommitted changes"; exit 2; fi
 git apply "$patch" || { echo "patch does not apply"; exit 2; }
-trap 'git -C /repo checkout -- . ' EXIT
+bak=$(mktemp -d); cp -r /verif/evidence $bak/ 2>/dev/null
+trap 'git -C /repo checkout -- . ; rm -rf /verif/evidence; cp -r $bak/evidence /verif/evidence; rm -rf $bak /verif/replay' EXIT
 cd /verif
 for c in "$@"; do
   start=$(date +%s)
